@@ -73,4 +73,80 @@ func largePolicies(path string, rng *rand.Rand, sizes []int) {
 		}
 		o.Emit(l)
 	}
+	printedPolicies(o, rng, 60)
+}
+
+// printLine: a policy with 6 to 9 leaves is parsed, used once (Satisfaction re-sorts its gates in place, and Encrypt serialises them in
+// that order), printed, and the printed text parsed again: both policies must give the same answer for every sampled attribute set.
+type printLine struct {
+	Ev        string `json:"ev"`
+	Policy    string `json:"policy"`
+	Printed   string `json:"printed"`
+	ReparseOK bool   `json:"reparse_ok"`
+	Agree     bool   `json:"agree"`
+	Samples   int    `json:"samples"`
+	Panics    int    `json:"panics"`
+	Note      string `json:"note"`
+}
+
+func randomPolicy(rng *rand.Rand, leaves int, next *int) string {
+	if leaves == 1 {
+		*next++
+		l := fmt.Sprintf("l%d:v%d", *next, rng.Intn(2))
+		if rng.Intn(4) == 0 {
+			return "not " + l
+		}
+		return l
+	}
+	k := 1 + rng.Intn(leaves-1)
+	op := []string{" and ", " or "}[rng.Intn(2)]
+	return "(" + randomPolicy(rng, k, next) + op + randomPolicy(rng, leaves-k, next) + ")"
+}
+
+func printedPolicies(o *vlib.Out, rng *rand.Rand, n int) {
+	for i := 0; i < n; i++ {
+		leaves := 6 + rng.Intn(4)
+		cnt := 0
+		l := printLine{Ev: "print", Policy: randomPolicy(rng, leaves, &cnt)}
+		oc := vlib.Safe(120e9, func() {
+			var p, p2 tkn20.Policy
+			if err := p.FromString(l.Policy); err != nil {
+				l.Note = "parse: " + err.Error()
+				return
+			}
+			sample := func() tkn20.Attributes {
+				m := map[string]string{}
+				for j := 1; j <= leaves; j++ {
+					switch rng.Intn(3) {
+					case 0:
+						m[fmt.Sprintf("l%d", j)] = "v0"
+					case 1:
+						m[fmt.Sprintf("l%d", j)] = "v1"
+					}
+				}
+				var at tkn20.Attributes
+				at.FromMap(m)
+				return at
+			}
+			_ = p.Satisfaction(sample()) // the policy has been used
+			l.Printed = p.String()
+			if err := p2.FromString(l.Printed); err != nil {
+				l.Note = "reparse: " + err.Error()
+				return
+			}
+			l.ReparseOK, l.Agree = true, true
+			for k := 0; k < 60; k++ {
+				at := sample()
+				l.Samples++
+				if p.Satisfaction(at) != p2.Satisfaction(at) {
+					l.Agree = false
+					l.Note = "the printed policy answers differently"
+				}
+			}
+		})
+		if oc.Bad() {
+			l.Panics, l.Note = 1, oc.Panic
+		}
+		o.Emit(l)
+	}
 }
